@@ -100,6 +100,9 @@ struct Case {
     salt: u32,
     /// protocol-respecting predecessor symbol executed before the call under test (context)
     pred: Option<usize>,
+    /// context run on a panel that is busy for three polls after every busy-raising command and does
+    /// not latch commands received while BUSY is asserted
+    busy: bool,
 }
 
 fn check_one(c: &Case, variant: &str, rep: &mut Report) {
@@ -107,13 +110,34 @@ fn check_one(c: &Case, variant: &str, rep: &mut Report) {
     let pe = &c.pe;
     let w = c.win;
     rep.eval(spec.name);
-    let mut rig = Rig::simple(spec);
+    let mut rig = if c.busy {
+        match Rig::new(
+            spec,
+            |b| {
+                b.busy_mode = crate::hal::BusyMode::Physical;
+                b.chips[0].busy.default_d = 3;
+            },
+            None,
+            false,
+        ) {
+            Ok(r) => {
+                r.board.borrow_mut().chips[0].drop_while_busy = true;
+                r
+            }
+            Err(_) => {
+                rep.count("prefix_failed", 1);
+                return;
+            }
+        }
+    } else {
+        Rig::simple(spec)
+    };
     let mut ops: Vec<Op> = Vec::new();
     let mut ctx_tag: Option<String> = None;
     if let Some(pi) = c.pred {
         let syms = syms(spec);
         ops.extend(syms[pi].iter().cloned());
-        ctx_tag = Some(format!("after:{}", sym_kinds(&syms, &[pi])));
+        ctx_tag = Some(format!("after:{}{}", sym_kinds(&syms, &[pi]), if c.busy { ",panel-busy" } else { "" }));
     }
     if spec.name == "epd2in9b_v4" {
         // documented protocol: base image first
@@ -309,14 +333,15 @@ fn check(c: &Case, variant: &str, rep: &mut Report) {
     check_one(c, variant, &mut tmp);
     if c.pred.is_some() && !tmp.failures.is_empty() {
         let mut fresh = Report::new();
-        let fc = Case { spec: c.spec, pe: c.pe, win: c.win, salt: c.salt, pred: None };
+        // baseline: the fresh call; for a busy context the same predecessor on an always-idle panel
+        let fc = Case { spec: c.spec, pe: c.pe, win: c.win, salt: c.salt, pred: if c.busy { c.pred } else { None }, busy: false };
         check_one(&fc, variant, &mut fresh);
-        let fresh_sigs: Vec<String> = fresh.failures.iter().map(|f| f.sig()).collect();
         let strip = |f: &Failure| {
             let mut g = f.clone();
             g.tags.retain(|t| !t.starts_with("after:"));
             g.sig()
         };
+        let fresh_sigs: Vec<String> = fresh.failures.iter().map(|f| strip(f)).collect();
         let keep: Vec<Failure> = tmp.failures.iter().filter(|f| !fresh_sigs.contains(&strip(f))).cloned().collect();
         tmp.failures.clear();
         tmp.fail_counts.clear();
@@ -407,7 +432,7 @@ pub fn run(ctx: &Ctx) -> Report {
         let preds: Vec<usize> = (0..syms.len()).filter(|i| !syms[*i].iter().any(|o| matches!(o.k, K::Sleep))).collect();
         for pe in spec.partial {
             for (i, w) in wins.iter().enumerate() {
-                cases.push(Case { spec, pe: *pe, win: *w, salt: 0x600 + i as u32, pred: None });
+                cases.push(Case { spec, pe: *pe, win: *w, salt: 0x600 + i as u32, pred: None, busy: false });
             }
             // in context: the first windows of the list (edges, single byte/row, seams) per predecessor
             let nctx = if ctx.tier_thorough { 60 } else { 14 };
@@ -416,7 +441,13 @@ pub fn run(ctx: &Ctx) -> Report {
                     continue; // partial update is only legal in full mode (documented assert)
                 }
                 for (i, w) in wins.iter().enumerate().take(nctx) {
-                    cases.push(Case { spec, pe: *pe, win: *w, salt: 0x900 + i as u32, pred: Some(*pi) });
+                    cases.push(Case { spec, pe: *pe, win: *w, salt: 0x900 + i as u32, pred: Some(*pi), busy: false });
+                }
+                // after a symbol that starts a refresh: also on a panel that is still busy afterwards
+                if syms[*pi].iter().any(|o| matches!(o.k, K::Display | K::UpdateAndDisplay | K::DisplayNew | K::UpdateAndDisplayNew | K::DisplayPartial | K::Clear)) {
+                    for (i, w) in wins.iter().enumerate().take(nctx) {
+                        cases.push(Case { spec, pe: *pe, win: *w, salt: 0xB00 + i as u32, pred: Some(*pi), busy: true });
+                    }
                 }
             }
         }
